@@ -29,7 +29,7 @@ CLAIMED = {
    text="Per-function contracts for the width exchange: syncWidth spawns one distributor per column, maxWidthDistributor answers every participant of a column with one common value that is at least each submitted width (maximum, common), WC.Format submits exactly once and receives exactly once when DSyncWidth is set and otherwise returns max(W, width + extra space) (own, exchange), bState.draw calls every decorator once; the heap manager keeps the sync flag and the column table per frame (syncflag, synced, syncframe).",
    note="that all bars of a frame take part in the same exchange is the heap-manager contract plus the channel invariants; the assumption that the column matrix is rectangular for bars with equal decorator counts is stated in the syncWidth contract", ref="4 C12"),
  "C13": dict(
-   text="Progress.Write performs one send and returns what the owner answered; the owner's closure calls the underlying writer once with the caller's bytes and answers with its results (once, answer); a Write that finds the container done returns (0, ErrDone) and emits nothing (late); flush writes intercepted bytes before any bar row of the same frame and each row whole (whole, flushed); serve renders once more after the loop when auto-refreshing (finalframe). One gap (manual refresh mode: accepted bytes may wait for a render the user never requests) is outside these obligations and documented.",
+   text="Progress.Write performs one send and returns what the owner answered; the owner's closure calls the underlying writer once with the caller's bytes and answers with its results (once, answer); a Write that finds the container done returns (0, ErrDone) and emits nothing (late); flush writes intercepted bytes before any bar row of the same frame and each row whole (whole, flushed); serve renders once more after the loop when auto-refreshing (finalframe). One recorded finding: in manual refresh mode nothing is rendered at shutdown, so bytes accepted after the last requested refresh are lost (KNOWN_FINDINGS.txt).",
    note="ordering across concurrent writers is the order of receives on one channel (A-ACT); bytes are abstract strings with exact concatenation", ref="4 C13"),
  "C14": dict(
    text="Exactly-once notification as postconditions: the heap manager closes itself and starts the notifier goroutine once per end request; Bar.serve starts one shutdown-listener notification per listener and counts each with the WaitGroup (once, counted); the listener collection walks every wrapped decorator (every); serve issues the end request exactly once with the configured notifier (ended).",
